@@ -387,6 +387,20 @@ def r17_7(run):
 def r17_6(run):
     k = dropped_deferreds(run, 'R17.6', [LU(run)], 'listen()')
     run.floor('R17.6', 'suspension points in listen', k, 4)
+    li = LU(run)
+    required_await(run, 'R17.6', li, lambda v: (dotted(v) or '').endswith('.post_bootstrap'),
+                   lambda a: isinstance(a, ast.Call) and dotted(a.func) == 'self.tcp_endpoint.listen',
+                   'the configuration bootstrap', 'the local listener is bound', 'await-config')
+    # the releasing handler re-raises: listen() fails with the original error
+    g = cfg_of(li)
+    rel = [n for n in g.real_nodes() if any(isinstance(a, ast.Attribute) and a.attr == 'stopListening' for a in node_asts(n))]
+    for n in rel:
+        if not any(h.kind == 'handler' and n in g.reachable([s_ for _, s_ in h.succ]) for h in g.live):
+            continue
+        r = g.reachable([s_ for lab, s_ in n.succ if lab != 'exc'], avoid=lambda x: x.kind == 'stmt' and isinstance(x.ast, ast.Raise), follow_exc=False)
+        run.ob('R17.6', li, n.ast, 'after releasing the listener the failure is re-raised', not any(e in r for e in g.normal_exits()), slot='reraise-after-release',
+               message='listen() releases the listener in its failure handler but then carries on instead of re-raising: it fails later with an unrelated '
+                       'assertion (or returns a port for a service that does not exist)')
 
 
 RULES = [
@@ -403,6 +417,8 @@ RULES = [
 from ..selftest import M  # noqa: E402
 F = 'txtorcon/endpoints.py'
 MUTANTS = [
+    M('config-bootstrap-removed', F, "        yield self._config.post_bootstrap\n", "", ['R17.6']),
+    M('handler-swallows', F, "                yield defer.maybeDeferred(port.stopListening)\n                raise\n", "                yield defer.maybeDeferred(port.stopListening)\n", ['R17.6', 'R17.3']),
     M('config-attrs-parses-hostname', 'txtorcon/onion.py', "        if self._clients:\n            rtn.append((\n                'HiddenServiceAuthorizeClient',", "        if self.client_names():\n            rtn.append((\n                'HiddenServiceAuthorizeClient',", ['R17.8']),
     M('dir-read-unguarded', F, "                    if getattr(hs, 'dir', None) == os.path.abspath(self.hidden_service_dir):", "                    if hs.dir == os.path.abspath(self.hidden_service_dir):", ['R17.3']),
     M('dir-list-unguarded', F, "hs_dirs = [hs.dir for hs in self._config.HiddenServices if hasattr(hs, 'dir')]", "hs_dirs = [hs.dir for hs in self._config.HiddenServices]", ['R17.3']),
